@@ -66,7 +66,7 @@ class Run:
     pass
 
 
-def run(case, predict=True):
+def run(case, predict=True, check_diag=True):
     """fits (and predicts); returns Run with: model, W (train+unl square, evaluated from outside), DQ[q][t] = d(t, x_q), state, preds
     or a string = discard reason (premise of the property not met by the evaluated matrix)."""
     np = models.np()
@@ -97,7 +97,7 @@ def run(case, predict=True):
         r.DQ = [[row[0] for row in models.eval_matrix(name, X[:ntr], [X[ntr + q]])] for q in range(nq)]
         I_tr = None
         I_q = None
-    why = models.premise_matrix(r.W)
+    why = models.premise_matrix(r.W, check_diag=check_diag)
     if why is None and nq:
         import math
 
